@@ -4,11 +4,11 @@ META = dict(
     engine="E-KV",
     technique="Lean 4 proof on the pure multistore model (simulation between the list-of-IAVL-trees model and a per-height map specification, lifted over all block histories and all interleavings of historical reads) + differential correspondence on the real rootmulti.Store/iavl.Store with historical views held open across later writes and commits",
     level_text="Kernel-checked theorems (stage A, pure model): every read through a view of a committed height returns what the map committed at that height returns; the answer is unchanged by any later writes/commits on any substore and by any other historical or working reads interleaved (statement over arbitrary event lists); every committed height can be opened and LoadLazyVersion/CacheMultiStoreWithVersion open exactly the tree saved at that height. The Go code is tied to the model on every run: views are opened through LoadLazyVersion, CacheMultiStoreWithVersion, GetImmutable and height queries, kept open while the working multistore is written and committed, and every Get/Has/iteration (incl. iterators left open across later commits and advanced step by step) is compared with the per-height map.",
-    level_note="NOT proved (stage B): heap aliasing in the Go implementation — shared node cache and node DB, shared `versions` map, SaveBranch clearing child pointers, in-place hash memoisation. It is exercised by the harness (iavl node cache sizes default and 2), not modelled. Context.PrevCtx (needs a Tendermint block store) is represented by the LoadLazyVersion call it makes. The schedule between iterator creation and its first Valid() is outside the claim. Trusted: Lean kernel; axioms propext, Classical.choice, Quot.sound; harness/driver parser. With the optional height cache switched on (node flag, default off) historical reads are wrong in the ways recorded under C10; this check replays them as known findings with their own `hcache-` signatures.",
+    level_note="NOT proved (stage B): heap aliasing in the Go implementation — shared node cache and node DB, shared `versions` map, SaveBranch clearing child pointers, in-place hash memoisation. It is exercised by the harness (iavl node cache sizes default and 2), not modelled. Context.PrevCtx is exercised over a synthetic block store (store part only; the rebuilt header is not checked). The schedule between iterator creation and its first Valid() is outside the claim. Trusted: Lean kernel; axioms propext, Classical.choice, Quot.sound; harness/driver parser. With the optional height cache switched on (node flag, default off) historical reads are wrong in the ways recorded under C10; this check replays them as known findings with their own `hcache-` signatures.",
 )
 
 RULE = ("c09: real rootmulti.Store over MemDB, two IAVL substores + one transient store, 24 short colliding keys; steps: set 30% / delete 15% / commit 8% / "
-        "open a view 9% (LoadLazyVersion | CacheMultiStoreWithVersion | GetImmutable; 10% at a height not yet committed) / advance or close an open iterator 14% / "
+        "open a view 9% (LoadLazyVersion | CacheMultiStoreWithVersion | GetImmutable | Context.PrevCtx over a real block store; 10% at a height not yet committed) / advance or close an open iterator 14% / "
         "height query 4% / reads through a random open view 17% (Get, Has, drained Iterator/ReverseIterator with nil/member/non-member bounds, or open an iterator and leave it open); "
         "up to 8 views and 6 iterators stay open while later steps write and commit; every 97 steps every open view is read out completely in both directions; "
         "non-trivial = every line except failed opens; distinct = distinct trace line")
@@ -19,14 +19,17 @@ def run(ctx):
     ctx.rule(RULE)
     ctx.trust("heap aliasing between the working tree and historical views (stage B) is exercised, not proved",
               "iavlIterator goroutine schedule before the first Valid() is not covered",
-              "Context.PrevCtx is represented by rootmulti.Store.LoadLazyVersion (its only store-level action)")
+              "Context.PrevCtx is exercised with a synthetic Tendermint block store on MemDB; its header reconstruction is not compared")
     ctx.assume("pruning = nothing (the only mode the app uses; iavl.Store.Commit's release code is commented out): no committed height is ever deleted")
-    n = 60000 if ctx.thorough else 2500
+    n = 60000 if ctx.thorough else 2000
     ctx.stream("views", "c09", "Driver/C09.lean", n=n, drv_timeout=3000, timeout=3000)
-    ctx.stream("views-smallcache", "c09", "Driver/C09.lean", n=n if ctx.thorough else 1500, seed=ctx.seed * 1000 + 9,
+    ctx.stream("views-smallcache", "c09", "Driver/C09.lean", n=n if ctx.thorough else 1200, seed=ctx.seed * 1000 + 9,
                args=["-cache", "2", "-keys", "40"], drv_timeout=3000, timeout=3000)
+    # tiny key space: substores shrink to 0-3 keys all the time (single-leaf roots, root replacement)
+    ctx.stream("views-tiny", "c09", "Driver/C09.lean", n=n if ctx.thorough else 1000, seed=ctx.seed * 1000 + 11,
+               args=["-keys", "3"], drv_timeout=3000, timeout=3000)
     # the optional height cache (C10's subject): its defects are visible through historical views
-    ctx.stream("views-hcache", "c09", "Driver/C09.lean", n=20000 if ctx.thorough else 1200, seed=ctx.seed * 1000 + 10, args=["-hcache"],
+    ctx.stream("views-hcache", "c09", "Driver/C09.lean", n=20000 if ctx.thorough else 800, seed=ctx.seed * 1000 + 10, args=["-hcache"],
                drv_timeout=3000, timeout=3000)
     if ctx.thorough:
         ctx.stream("views-race", "c09", "Driver/C09.lean", n=20000, seed=ctx.seed * 1000 + 12, race=True, drv_timeout=3000, timeout=3000)
